@@ -23,6 +23,7 @@ RULE = (
     "selective undo (optionally drop=True), selective redo, max_history_items change; plus ALL sequences of length "
     "<=5 (quick) / <=6 (thorough) over an 8-letter alphabet on a 3-file tree; non-trivial = history containing a "
     "selective undo/redo that leaves >=1 later change in force, or a limit truncation, or undo+redo+do; distinct by op list"
+    "; history limit may be 0; changes that touch only an ignored resource, or mix it with ordinary ones"
 )
 ASSUMPTIONS = [
     "trees are UTF-8, LF-only (byte-exactness of other encodings/newlines is C16)",
